@@ -144,4 +144,92 @@ theorem dns_names (cmd arg : Bytes) :
 theorem no_realm_no_lookup (cmd id : Bytes) (h : dynRealmOf (cstr id) = none) : dynLookup cmd id = none := by
   unfold dynLookup; rw [h]; rfl
 
+/-! ### the restart path of `findserver` (an existing sub-realm whose discovered server gave up) -/
+
+theorem afterLastAt_append (pre r : Bytes) (hno : ¬ (64 : UInt8) ∈ r) : afterLastAt (pre ++ 64 :: r) = some r := by
+  induction pre with
+  | nil =>
+    simp only [List.nil_append]
+    unfold afterLastAt
+    cases hr : afterLastAt r with
+    | some x =>
+      obtain ⟨p, hp, _⟩ := afterLastAt_some r x hr
+      exact absurd (by rw [hp]; simp) hno
+    | none => simp
+  | cons c t iht =>
+    simp only [List.cons_append]
+    unfold afterLastAt
+    rw [iht]
+
+theorem toLower_eq_at (c : UInt8) (h : Log.toLower c = 64) : c = 64 := by
+  unfold Log.toLower at h
+  split at h
+  · rename_i hc
+    simp only [Bool.and_eq_true, decide_eq_true_eq] at hc
+    have h2 : (c + 32).toNat = 64 := by rw [h]; rfl
+    rw [UInt8.toNat_add] at h2
+    have : (32 : UInt8).toNat = 32 := rfl
+    omega
+  · exact h
+
+/-- restarting a discovery inside an existing sub-realm hands the lookup the sub-realm's own text -/
+theorem refind_restart (cmd r1 id r : Bytes) (l : Lookup) (h : refind cmd r1 id = some (r, true, l)) :
+    r = r1 ∧ l = lookupFor cmd r1 := by
+  unfold refind at h
+  split at h
+  · simp only [Option.some.injEq, Prod.mk.injEq, true_and] at h
+    exact ⟨h.1.symm, h.2.symm⟩
+  · cases hd : dynLookup cmd id with
+    | none => simp [hd] at h
+    | some p => simp [hd] at h
+
+/-- nothing but sanitised text reaches a lookup on the restart path either: the text is non-empty, all letters, digits,
+    '.' and '-', and the lookup is the one built from exactly that text -/
+theorem refind_sanitised (cmd r1 id r : Bytes) (b : Bool) (l : Lookup) (hne : r1 ≠ []) (hall : r1.all allowed = true)
+    (h : refind cmd r1 id = some (r, b, l)) : r ≠ [] ∧ r.all allowed = true ∧ l = lookupFor cmd r := by
+  unfold refind at h
+  split at h
+  · simp only [Option.some.injEq, Prod.mk.injEq] at h
+    obtain ⟨h1, _, h3⟩ := h
+    subst h1
+    exact ⟨hne, hall, h3.symm⟩
+  · unfold dynLookup at h
+    cases hd : dynRealmOf (cstr id) with
+    | none => simp [hd] at h
+    | some r' =>
+      simp only [hd, Option.map_some, Option.some.injEq, Prod.mk.injEq] at h
+      obtain ⟨h1, _, h3⟩ := h
+      subst h1
+      obtain ⟨_, hne', hall'⟩ := (dynRealmOf_some_iff (cstr id) r').mp hd
+      exact ⟨hne', hall', h3.symm⟩
+
+/-- an identifier that restarts a sub-realm's discovery has that sub-realm's text, up to letter case, after its LAST '@':
+    text in front of it — further '@', shell syntax — never reaches the lookup -/
+theorem refind_restart_last_realm (r1 id : Bytes) (hall : r1.all allowed = true) (h : endsWithCI id (64 :: r1) = true) :
+    ∃ r', afterLastAt id = some r' ∧ lowerAll r' = lowerAll r1 := by
+  unfold endsWithCI at h
+  simp only [Bool.and_eq_true, decide_eq_true_eq, beq_iff_eq, List.length_cons] at h
+  obtain ⟨hlen, heq⟩ := h
+  have hsplit : id = id.take (id.length - (r1.length + 1)) ++ id.drop (id.length - (r1.length + 1)) := (List.take_append_drop _ _).symm
+  generalize hsuf : id.drop (id.length - (r1.length + 1)) = suf at heq hsplit
+  cases suf with
+  | nil => simp [lowerAll] at heq
+  | cons c r' =>
+    simp only [lowerAll, List.map_cons, List.cons.injEq] at heq
+    obtain ⟨hc, hr⟩ := heq
+    have hc64 : c = 64 := toLower_eq_at c (by rw [hc]; rfl)
+    subst hc64
+    have hno : ¬ (64 : UInt8) ∈ r' := by
+      intro hm
+      have : Log.toLower 64 ∈ r'.map Log.toLower := List.mem_map_of_mem hm
+      rw [hr] at this
+      obtain ⟨x, hx, hxe⟩ := List.mem_map.mp this
+      have hx64 : x = 64 := toLower_eq_at x (by rw [hxe]; rfl)
+      subst hx64
+      have := List.all_eq_true.mp hall 64 hx
+      simp [allowed, isAlnum] at this
+    refine ⟨r', ?_, by simpa [lowerAll] using hr⟩
+    rw [hsplit]
+    exact afterLastAt_append _ r' hno
+
 end Rsp.Props.C20
